@@ -10,6 +10,10 @@ for path in sys.argv[1:]:
     for line in open(path):
         v = json.loads(line)
         fam = v["key"].split(":")[0]
+        if v["property"] == "C16" and all("finding N2" in c for c in v["clauses"]):
+            what = "N2 one-ulp bump: two float segments meeting in a common end point (right end of one = left end of the other) are split next to it at two different points (DESIGN.md 7): " + "; ".join(v["clauses"])
+            out[(v["property"], v["key"])] = {"status": "known", "property": "C16", "key": v["key"], "what": what}
+            continue
         if fam not in ("L2i", "L2s", "L2i21"):
             print("NOT ELIGIBLE:", v["key"], v["clauses"], file=sys.stderr)
             continue
